@@ -424,6 +424,14 @@ func (c *VCtx) acquire(fr *Frame, st *State, lock *Term, write bool, pos token.P
 			c.fact(Implies(st.pc, c.translateBool(sc, inv.E)))
 		}
 	}
+	for _, m := range h.specs {
+		for _, f := range m.spec.Bounded {
+			hn := fieldHeapName(m.objT, f)
+			hv := Select(c.heap(st, hn, ArrSort(SRef, SInt)), m.obj)
+			c.fact(Implies(st.pc, And(Lt(hv, IntLitS(pow2str(62))), Gt(hv, IntLitS("-"+pow2str(62))))))
+			c.eng.assume("counter " + m.spec.Type + "." + f + " does not overflow (|value| < 2^62)")
+		}
+	}
 	// the global invariants hold for the state just observed (they talk about the guarded fields havocked above)
 	for _, g := range c.globalClauses() {
 		if !g.trans {
